@@ -44,7 +44,7 @@ struct Tok { id: Vec<u8>, kind: &'static str, tm: VMAddress, token: Option<Vec<u
 struct W {
     w: World, its: VMAddress, gw: VMAddress, gas: VMAddress, owner: VMAddress, operator: VMAddress, relayer: VMAddress,
     users: Vec<VMAddress>, dest: VMAddress, pool: Pool, tab: SigTab, set: SSet, domain: Vec<u8>, now: u64,
-    steps: Vec<Value>, pend: Vec<Pend>, next_id: u64, next_tm: u8, msg: u64, toks: Vec<Tok>, paused: bool,
+    steps: Vec<Value>, pend: Vec<Pend>, next_id: u64, next_tm: u8, msg: u64, toks: Vec<Tok>, paused: bool, proposed: Option<(VMAddress, VMAddress)>,
 }
 
 impl W {
@@ -141,7 +141,7 @@ pub fn run(seed: u64, ntraces: usize) {
             "tracked": tracked, "funds": all.iter().map(|u| json!([hx(u.as_bytes()), "2000000000000000000", [[hx(&tok), "1000000"], [hx(&tok2), "1000000"]]])).collect::<Vec<_>>(),
             "res": st.json});
         let mut g = W { w, its: its.clone(), gw: gw.clone(), gas: gas.clone(), owner: owner.clone(), operator: operator.clone(), relayer: relayer.clone(), users: users.clone(), dest: dest.clone(),
-            pool, tab: SigTab(vec![]), set, domain, now, steps: vec![], pend: vec![], next_id: 0, next_tm: 0, msg: 0, toks: vec![], paused: false };
+            pool, tab: SigTab(vec![]), set, domain, now, steps: vec![], pend: vec![], next_id: 0, next_tm: 0, msg: 0, toks: vec![], paused: false, proposed: None };
 
         let mut script: Vec<u64> = vec![];
         // --- directed schedules (every 10th trace): the recorded findings F-C08-1 and F-C17-2
@@ -432,7 +432,16 @@ pub fn run(seed: u64, ntraces: usize) {
                     g.its_tx("linkToken", &deployer, "linkToken", vec![salt.clone(), dchain.clone(), dtok.clone(), if ty == 0 { vec![] } else { vec![ty] }, b"params".to_vec()], gasv, &[],
                         json!({"salt": hx(&salt), "dchain": hx(&dchain), "dtoken": hx(&dtok), "ty": ty, "params": hx(b"params")})); }
                 18 => { let caller = if r.chance(1, 2) { g.operator.clone() } else { anyone.clone() }; let na = r.pick(&g.users).clone();
-                    let (ok, _, _) = g.its_tx("transferOp", &caller, "transferOperatorship", vec![na.to_vec()], 0, &[], json!({"a": hx(na.as_bytes())})); if ok { g.operator = na; } }
+                    match r.below(4) {
+                        0 | 1 => { let (ok, _, _) = g.its_tx("transferOp", &caller, "transferOperatorship", vec![na.to_vec()], 0, &[], json!({"a": hx(na.as_bytes())})); if ok { g.operator = na; } }
+                        2 => { let (ok, _, _) = g.its_tx("proposeOp", &caller, "proposeOperatorship", vec![na.to_vec()], 0, &[], json!({"a": hx(na.as_bytes())}));
+                               if ok { g.proposed = Some((caller.clone(), na.clone())); script.extend([44u64]); if r.chance(1, 2) { script.extend([44u64]); } } }
+                        _ => { let from = if r.chance(2, 3) { g.operator.clone() } else { r.pick(&g.users).clone() };
+                               let (ok, _, _) = g.its_tx("acceptOp", &anyone, "acceptOperatorship", vec![from.to_vec()], 0, &[], json!({"a": hx(from.as_bytes())})); if ok { g.operator = anyone.clone(); } }
+                    } }
+                44 => { // the proposed account accepts the last operatorship proposal (again: the second time it must fail)
+                    let Some((from, to)) = g.proposed.clone() else { continue; };
+                    let (ok, _, _) = g.its_tx("acceptOp", &to, "acceptOperatorship", vec![from.to_vec()], 0, &[], json!({"a": hx(from.as_bytes())})); if ok { g.operator = to.clone(); } }
                 42 => { // directed: remote deployment naming the service itself as minter, no destination minter
                     let Some(tk) = g.toks.iter().rev().find(|t| t.kind == "native") else { continue; };
                     let (deployer, salt) = (tk.deployer.clone(), tk.salt.clone()); let (minter, dchain) = (g.its.to_vec(), b"ethereum".to_vec());
